@@ -644,7 +644,8 @@ class SSHTransportBase(protocol.Protocol):
             packet
         ) + self.currentEncryptions.makeMAC(self.outgoingPacketSequence, packet)
         self.transport.write(encPacket)
-        self.outgoingPacketSequence += 1
+        # RFC 4253 section 6.4: the sequence number wraps around at 2**32.
+        self.outgoingPacketSequence = (self.outgoingPacketSequence + 1) & 0xFFFFFFFF
 
     def getPacket(self):
         """
@@ -705,7 +706,8 @@ class SSHTransportBase(protocol.Protocol):
                 self._log.failure("Error decompressing payload")
                 self.sendDisconnect(DISCONNECT_COMPRESSION_ERROR, b"compression error")
                 return
-        self.incomingPacketSequence += 1
+        # RFC 4253 section 6.4: the sequence number wraps around at 2**32.
+        self.incomingPacketSequence = (self.incomingPacketSequence + 1) & 0xFFFFFFFF
         return payload
 
     def _unsupportedVersionReceived(self, remoteVersion):
